@@ -165,7 +165,13 @@ def _cargo_check(repo, flags):
         env = dict(os.environ, CARGO_TARGET_DIR=tgt, CARGO_NET_OFFLINE="true")
         env.pop("RUSTC_WORKSPACE_WRAPPER", None)
         env.pop("RUSTFLAGS", None)
+        # dependencies come from a member-free template of an earlier build with the same manifest (core.seed_target); the
+        # crate itself is always compiled from the tree under analysis
+        tkey = core.deps_template_key(repo, "matrix", flags, "", "stable")
+        seeded = core.seed_target(tgt, tkey)
         p = subprocess.run(["cargo", "check", "--offline", "--lib"] + list(flags), cwd=repo, env=env, stdout=subprocess.PIPE, stderr=subprocess.STDOUT, text=True)
+        if p.returncode == 0 and not seeded:
+            core.save_template(tgt, tkey)
         return p.returncode, p.stdout
     finally:
         shutil.rmtree(tgt, ignore_errors=True)
